@@ -3,6 +3,35 @@
 #include "c07_irq.h"
 #include "c12_mmio.h"
 #include "c14_apbp.h"
+#include "c17_reset.h"
+
+// ---- heap fill seam (C17): every operator-new block is pre-filled with a pattern chosen by the harness ----
+namespace verif_heap {
+thread_local int g_fill = -1;
+}
+void* operator new(std::size_t n) {
+    void* p = std::malloc(n ? n : 1);
+    if (!p)
+        throw std::bad_alloc();
+    if (verif_heap::g_fill >= 0)
+        std::memset(p, verif_heap::g_fill, n);
+    return p;
+}
+void* operator new[](std::size_t n) {
+    return operator new(n);
+}
+void operator delete(void* p) noexcept {
+    std::free(p);
+}
+void operator delete[](void* p) noexcept {
+    std::free(p);
+}
+void operator delete(void* p, std::size_t) noexcept {
+    std::free(p);
+}
+void operator delete[](void* p, std::size_t) noexcept {
+    std::free(p);
+}
 
 int main(int argc, char** argv) {
     verif::Args args = verif::Args::Parse(argc, argv);
@@ -16,6 +45,8 @@ int main(int argc, char** argv) {
             return c07::RunReplay(args.replay, res);
         if (args.replay.rfind("c12", 0) == 0)
             return c12::RunReplay(args.replay, res);
+        if (args.replay.rfind("c17", 0) == 0)
+            return c17::RunReplay(args.replay, res);
         if (args.replay.rfind("c14", 0) == 0)
             return c14::RunReplay(args.replay, res);
         return 2;
@@ -26,6 +57,8 @@ int main(int argc, char** argv) {
         c07::Run(args, res);
     } else if (args.sub == "c12") {
         c12::Run(args, res);
+    } else if (args.sub == "c17") {
+        c17::Run(args, res);
     } else if (args.sub == "c14") {
         c14::Run(args, res);
     } else {
